@@ -2745,17 +2745,24 @@ class Parameters:
         triggers = {p:self_[p]._autotrigger_value
                     for p in trigger_params if p in param_names}
 
+        param_values = self_.values()
+        params = {name: param_values[name] for name in param_names}
         events = self_._events
         watchers = self_._state_watchers
         self_._events  = []
         self_._state_watchers = []
-        param_values = self_.values()
-        params = {name: param_values[name] for name in param_names}
         self_._TRIGGER = True
-        self_.update(dict(params, **triggers))
-        self_._TRIGGER = False
-        self_._events += events
-        self_._state_watchers += watchers
+        try:
+            self_.update(dict(params, **triggers))
+        finally:
+            self_._TRIGGER = False
+            # Re-queue what was pending before the trigger, in the order it
+            # was raised and without queueing any watcher twice.
+            self_._events = events + self_._events
+            self_._state_watchers = watchers + [
+                w for w in self_._state_watchers
+                if not any(w is queued for queued in watchers)
+            ]
 
     def _update_event_type(self_, watcher, event, triggered):
         """Return an updated Event object with the type field set appropriately."""
